@@ -52,7 +52,10 @@ F = {
             ("C10", "missed_failure", "cfg q=1 | T0: spawn 1; send 0 1; send 0 2; join 1 | T1: recv 0; droprx 0", "leak"),
             ("C01", "missed_failure", "cfg q=1 | T0: spawn 1; send 0 1; send 0 2; join 1 | T1: recv 0; droprx 0", "leak"),
             ("C04", "missed_failure", "cfg q=1 c=1 | T0: spawn 1; cwr 0 5; send 0 1; join 1 | T1: tryrecv 0; crd 0; droprx 0", "causality"),
-            ("C05", "missed_failure", "cfg q=1 | T0: spawn 1; tryrecv 0; recv 0; join 1; droprx 0 | T1: send 0 1", "deadlock")]),
+            ("C05", "missed_failure", "cfg q=1 | T0: spawn 1; tryrecv 0; recv 0; join 1; droprx 0 | T1: send 0 1", "deadlock"),
+            # a run with a control call happens to reach the order the unrestricted run never explores
+            ("C19", "controls-not-subset", "cfg q=1 | T0: spawn 1; recv 0; tryrecv 0; join 1; droprx 0 | T1: send 0 1; send 0 2; skip",
+             "empty v:1", None, "cfg q=1 | T0: spawn 1; recv 0; tryrecv 0; join 1; droprx 0 | T1: send 0 1; send 0 2")]),
  "F9": dict(cls="try-acquire-blocked",
    what="a failing try_lock/try_read/try_write is explored only when the holder's critical section contains a scheduling point: neither the release of a lock nor a cell access is a branch point, so a section without atomics/locks inside is one indivisible step and the 'lock is held' state is never visible to a concurrent try (rt/mutex.rs, rt/rwlock.rs; same family as F7/F19/F24). (That a thread pending on a try was BLOCKED by the acquisition - false deadlocks - was repaired in b682426.)",
    entries=[(p, "missing", "cfg m=1 | T0: spawn 1; trylock 0; ifeq 1 v:1 1; unlock 0; join 1 | T1: lock 0; unlock 0",
